@@ -172,8 +172,9 @@ def _hashable(k):
 def compare_reload(state, storage, tag, none_key=False):
     """-> differences between the live state and a state reloaded from storage: oid lookups, path
     lookups (stale ones included), pending set.  Entries are identified by storage_id.
-    The reloaded state additionally indexes the last loaded entry under the oid key None (the live
-    state never does); that key is compared only with none_key=True."""
+    The reloaded state additionally indexes sides WITHOUT oid: the last loaded such entry under the
+    oid key None, and under its path with the inner key None (the live state never indexes a side
+    without oid); those index entries are compared only with none_key=True."""
     diffs = []
     fresh, dropped = load_fresh(state, storage, tag)
     for rid in dropped:
@@ -191,12 +192,20 @@ def compare_reload(state, storage, tag, none_key=False):
         lp = {p for p in state._paths[side] if p}
         fp = {p for p in fresh._paths[side] if p}
         for p in sorted(lp | fp, key=repr):
-            a = sorted((e.storage_id for e in state.lookup_path(side, p, stale=True) if not e.is_trash), key=repr)
-            b = sorted((e.storage_id for e in fresh.lookup_path(side, p, stale=True)), key=repr)
+            a = sorted((e.storage_id for e in state.lookup_path(side, p, stale=True)
+                        if not e.is_trash and (none_key or e[side].oid is not None)), key=repr)
+            b = sorted((e.storage_id for e in fresh.lookup_path(side, p, stale=True)
+                        if none_key or e[side].oid is not None), key=repr)
             if a != b:
                 diffs.append(("lookup-path", side, p, a, b))
     la = {e.storage_id for e in state._changeset if not e.is_trash}
-    fa = {e.storage_id for e in fresh._changeset}
+    # the loader makes an entry pending when `changed` is set on any side, the live state only when
+    # that side also has an oid; entries pending through oid-less sides only belong to the same family
+    fa = {e.storage_id for e in fresh._changeset
+          if none_key or any(e[s].changed and e[s].oid is not None for s in (0, 1))}
+    if not none_key:
+        la = {e.storage_id for e in state._changeset
+              if not e.is_trash and any(e[s].changed and e[s].oid is not None for s in (0, 1))}
     if la != fa:
         diffs.append(("pending", sorted(la - fa, key=repr), sorted(fa - la, key=repr)))
     return diffs
